@@ -38,6 +38,7 @@ type Ctx struct {
 	cg         *callgraph.Graph
 	Tier       string
 	NCallSites int
+	NLifted    int
 }
 
 func load(repo string, overlay map[string][]byte) (*Ctx, error) {
@@ -152,6 +153,18 @@ func load(repo string, overlay map[string][]byte) (*Ctx, error) {
 		}
 	}
 	sort.Slice(c.Fns, func(i, j int) bool { return fnKey(c.Fns[i]) < fnKey(c.Fns[j]) })
+	// variables that closures only read go back into registers in their declaring function (lift.go)
+	if os.Getenv("LP2P_NOLIFT") == "" {
+		for _, f := range c.Fns {
+			n := liftFunction(f)
+			c.NLifted += n
+			if n > 0 {
+				if err := liftSanity(f); err != nil {
+					return nil, fmt.Errorf("register promotion left %s ill-formed: %v", fnKey(f), err)
+				}
+			}
+		}
+	}
 	return c, nil
 }
 
